@@ -9,27 +9,36 @@ OPTS = [dict(delta=d, phi=p) for d in (True, False) for p in (True, False)]
 
 
 def recipes(rng, incremental=None, max_interior=4, long_links=True):
-    """corner recipes first, then an endless stream of random ones"""
-    for r in corner_networks():
+    """corner recipes first, then an endless stream of random ones with a random corner recipe mixed
+    in now and then (so corner networks also meet other states/options)"""
+    corners = corner_networks()
+    for r in corners:
         yield r
     while True:
-        yield random_recipe(rng, incremental=incremental, max_interior=max_interior, long_links=long_links)
+        if rng.random() < 0.12:
+            yield dict(corners[int(rng.integers(0, len(corners)))], revisit=True)
+        else:
+            yield random_recipe(rng, incremental=incremental, max_interior=max_interior, long_links=long_links)
 
 
 def net_cases(rng, kinds=("interior", "boundary"), per_net=2, shapes=("1d",), zero=False, **kw):
-    """{recipe, vals, kind, opts, shape} cases: for every recipe `per_net` random states of random
-    kinds (plus the all-zero state if `zero`), cycling through the delta/phi option combinations."""
-    opt_cycle = itertools.cycle(OPTS)
+    """{recipe, vals, kind, opts, shape} cases: for every recipe `per_net` random states (kinds cycled;
+    plus the all-zero state if `zero`).  The first visit of a corner network has delta and phi on,
+    everything else draws the delta/phi combination at random."""
     shape_cycle = itertools.cycle(shapes)
+    kind_cycle = itertools.cycle(kinds)
     for rec in recipes(rng, **kw):
+        first_visit = bool(rec.get("tag")) and not rec.get("revisit")
+        rec = {k: v for k, v in rec.items() if k != "revisit"}
         b = build_from_recipe(rec)
-        todo = [(str(kinds[int(rng.integers(0, len(kinds)))]) if i >= len(kinds) else kinds[i]) for i in range(per_net)]
-        for kind in todo:
-            yield dict(recipe=rec, tag=rec.get("tag", "random"), kind=kind, vals=random_values(rng, b, kind),
-                       opts=next(opt_cycle), shape=next(shape_cycle))
-        if zero:
-            yield dict(recipe=rec, tag=rec.get("tag", "random"), kind="zero", vals=zero_values(b), opts=next(opt_cycle),
+
+        def opts():
+            return dict(OPTS[0]) if first_visit else dict(OPTS[int(rng.integers(0, 4))])
+        for kind in [next(kind_cycle) for _ in range(per_net)]:
+            yield dict(recipe=rec, tag=rec.get("tag", "random"), kind=kind, vals=random_values(rng, b, kind), opts=opts(),
                        shape=next(shape_cycle))
+        if zero:
+            yield dict(recipe=rec, tag=rec.get("tag", "random"), kind="zero", vals=zero_values(b), opts=opts(), shape=next(shape_cycle))
 
 
 def params_of(case):
